@@ -36,24 +36,26 @@ def main(argv):
     patch = os.path.abspath(os.path.join(src, 'patch.diff'))
     demo = os.path.abspath(os.path.join(src, 'demo.py'))
     rec = {'seed': sid, 'property': meta['property'], 'checks': {}, 'ran_at': time.strftime('%Y-%m-%d %H:%M:%S')}
-    rc, out = sh(['git', 'status', '--porcelain', '--untracked-files=no'], cwd=REPO)
-    if out.strip():
-        print('REFUSING: /repo has local modifications:\n' + out)
-        return 2
-    rc, out = sh(['git', 'apply', '--check', patch], cwd=REPO)
-    if rc != 0:
-        # the seed was written against the agent's worktree HEAD == /repo HEAD at that time; try 3-way
-        rc, out = sh(['git', 'apply', '--3way', '--check', patch], cwd=REPO)
-        if rc != 0:
-            print('patch does not apply:\n' + out)
-            return 2
-    env = dict(os.environ, PYTHONPATH=os.path.join(REPO, 'src'), PYTHONHASHSEED='0')
+    # work on a scratch clone of /repo's HEAD (outside /repo and /verif, removed afterwards): /repo itself is never modified,
+    # so seeds can be evaluated while other checks run against /repo
+    import tempfile
+    tmp = tempfile.mkdtemp(prefix='vseed-')
+    repo = os.path.join(tmp, 'repo')
     try:
-        rc, out = sh(['git', 'apply', patch], cwd=REPO)
+        rc, out = sh(['git', 'clone', '-q', '--no-hardlinks', REPO, repo])
         if rc != 0:
-            print('git apply failed:\n' + out)
+            print('clone failed:\n' + out)
             return 2
-        rc, out = sh(['/venv/bin/python', '-m', 'pytest', '-q', '-p', 'no:cacheprovider'], cwd=REPO, env=dict(os.environ))
+        env = dict(os.environ, PYTHONPATH=os.path.join(repo, 'src'), PYTHONHASHSEED='0')
+        rc, out = sh(['/venv/bin/python', demo], cwd=os.path.dirname(demo), env=env, timeout=300)
+        rec['demo_clean_exit'] = rc
+        rc, out = sh(['git', 'apply', '--3way', patch], cwd=repo)
+        if rc != 0:
+            rc, out = sh(['git', 'apply', patch], cwd=repo)
+            if rc != 0:
+                print('patch does not apply to /repo HEAD:\n' + out)
+                return 2
+        rc, out = sh(['/venv/bin/python', '-m', 'pytest', '-q', '-p', 'no:cacheprovider'], cwd=repo, env=dict(os.environ, PYTHONPATH=os.path.join(repo, 'src')))
         rec['tests_pass_with_patch'] = (rc == 0)
         rec['tests_tail'] = out.strip().splitlines()[-1] if out.strip() else ''
         rc, out = sh(['/venv/bin/python', demo], cwd=os.path.dirname(demo), env=env, timeout=300)
@@ -61,15 +63,13 @@ def main(argv):
         rec['demo_with_patch_tail'] = out.strip().splitlines()[-3:]
         for c in checks:
             t0 = time.time()
-            rc, out = sh([os.path.join(VERIF, 'check'), c, tier], cwd=VERIF, timeout=7200)
+            rc, out = sh([os.path.join(VERIF, 'check'), c, tier], cwd=VERIF, env=dict(os.environ, VERIF_REPO=repo, VERIF_NO_EVIDENCE='1'), timeout=7200)
             sigs = [l.strip() for l in out.splitlines() if l.strip().startswith('signature=')]
             rec['checks'][c] = {'exit': rc, 'violations': out.count('\nVIOLATION') + (1 if out.startswith('VIOLATION') else 0),
                                 'signatures': [s[:300] for s in sigs[:8]], 'wall_s': round(time.time() - t0, 1),
                                 'machinery_failure': 'MACHINERY-FAILURE' in out, 'tail': out.strip().splitlines()[-2:]}
     finally:
-        sh(['git', 'checkout', '--', '.'], cwd=REPO)
-    rc, out = sh(['/venv/bin/python', demo], cwd=os.path.dirname(demo), env=env, timeout=300)
-    rec['demo_clean_exit'] = rc
+        shutil.rmtree(tmp, ignore_errors=True)
     caught = [c for c, v in rec['checks'].items() if v['exit'] == 1]
     rec['caught_by'] = caught
     print(json.dumps(rec, indent=1))
